@@ -110,6 +110,10 @@ def expected_inner(cfgv, callid, a, b):
             subnet, normal, nm = a[2], bool(a[3]), bool(a[4])
             need(is_u(subnet, 15), 'subnet outside 0..15')
         else:
+            if a[1] == 2:      # given as a bytes object: exactly one byte
+                need(len(b[0]) == 1, 'communication type given as %d bytes' % len(b[0]))
+                a = list(a)
+                a[2] = b[0][0]
             need(is_u(a[2], 0xFF), 'communication type byte outside 0..0xFF')
             subnet, normal, nm = a[2] >> 4, bool(a[2] & 1), bool(a[2] & 2)
             if a[2] & 0x0C:
